@@ -99,13 +99,12 @@ Theorem C17_static_data :
   verification_trailer_pack verification_trailer = c_onl_vt /\ wf_commands verification_trailer = true /\
   k_onl_prot_arg3 = -1 /\ k_onl_prot_arg4 = -1 /\ k_onl_prot_arg5 = -1 /\
   k_onl_aprot_arg3 = -1 /\ k_onl_aprot_arg4 = -1 /\ k_onl_aprot_arg5 = -1 /\
-  c_onl_getkey_opnum = 0 /\ c_onl_isd_ctx_id = 0 /\ c_onl_ept_max_towers = 4 /\ c_onl_ept_tower_port = 135 /\
-  k_onl_unprot_sd_src = true /\ k_onl_aunprot_sd_src = true /\ k_onl_prot_sd_src = true /\ k_onl_aprot_sd_src = true.
+  c_onl_getkey_opnum = 0 /\ c_onl_isd_ctx_id = 0 /\ c_onl_ept_max_towers = 4 /\ c_onl_ept_tower_port = 135.
 Proof.
   exact (conj epm_contexts_packed (conj isd_contexts_packed (conj (proj1 ept_map_packed) (conj (proj1 vt_packed) (conj (proj2 vt_packed)
     (conj (proj1 protect_minus_ones) (conj (proj1 (proj2 protect_minus_ones)) (conj (proj1 (proj2 (proj2 protect_minus_ones)))
     (conj (proj1 (proj2 (proj2 (proj2 protect_minus_ones)))) (conj (proj1 (proj2 (proj2 (proj2 (proj2 protect_minus_ones)))))
-    (conj (proj2 (proj2 (proj2 (proj2 (proj2 protect_minus_ones))))) (conj eq_refl (conj eq_refl (conj eq_refl (conj eq_refl sd_sources))))))))))))))).
+    (conj (proj2 (proj2 (proj2 (proj2 (proj2 protect_minus_ones))))) (conj eq_refl (conj eq_refl (conj eq_refl eq_refl)))))))))))))).
 Qed.
 Print Assumptions C17_static_data.
 
